@@ -351,7 +351,7 @@ func checkC10Ret(c *lib.Ctx, only *c10rScn) {
 		raws[i], _ = json.Marshal(s)
 	}
 	workers := max(2, min(runtime.NumCPU(), 16))
-	results, deaths, err := cliRunPool("c10ret", nil, raws, workers, 120*time.Second, nil)
+	results, deaths, err := cliRunPoolC("c10ret", nil, raws, workers, 120*time.Second, nil, func(i int) string { return "c10ret/" + scns[i].Via })
 	if err != nil {
 		r.Fail(lib.Failure{Kind: "tie", Key: "ret/child", What: "cannot run child processes: " + err.Error()})
 		return
@@ -361,12 +361,15 @@ func checkC10Ret(c *lib.Ctx, only *c10rScn) {
 	dies := func(s c10rScn) bool {
 		b, _ := json.Marshal(s)
 		_, ds, err := cliRunPool("c10ret", nil, []json.RawMessage{b}, 1, 120*time.Second, nil)
-		return err == nil && ds[0] != nil
+		return err == nil && ds[0] != nil && ds[0] != cliNotRun
 	}
 	minimised := map[string]int{}
 	for i, s := range scns {
+		if deaths[i] == cliNotRun {
+			continue
+		}
 		if d := deaths[i]; d != nil {
-			if minimised[d.Why+d.Site] < 3 && only == nil && len(s.Steps) > 2 {
+			if minimised[d.Why+d.Site] < 3 && only == nil && len(s.Steps) > 2 && d.Why != "timeout" && !lib.Stopped("c10ret/"+s.Via) {
 				// shortest dying prefix (bisection), then only the step that opened the handle + the last step
 				minimised[d.Why+d.Site]++
 				lo, hi := 1, len(s.Steps) // invariant: prefix of length hi dies
@@ -413,9 +416,9 @@ func checkC10Ret(c *lib.Ctx, only *c10rScn) {
 			}
 		}
 		for k, v := range res.Hist {
-			r.Histogram[k] += v
+			r.HistAdd(k, v)
 		}
-		r.Histogram["ret-scenarios/"+s.Via+"/"+s.Name]++
+		r.HistAdd("ret-scenarios/"+s.Via+"/"+s.Name, 1)
 		ambig += res.Ambig
 		for _, f := range res.Fails {
 			r.Fail(lib.Failure{Kind: "oracle", Key: f.Key, What: f.What + " [" + s.Via + ", " + s.Name + "]", Input: f.Min, Expected: f.Expected, Actual: f.Actual})
